@@ -28,6 +28,23 @@ def carried(rng, vals, poisons=(50.0, -50.0, 0.0, 1.0), p_masked=0.2, p_list=0.1
     return arr(vals)
 
 
+def ptype(rng, v):
+    """the same number as a Python int / float or a numpy scalar (parameter *types* must not matter)"""
+    if v is None or isinstance(v, bool):
+        return v
+    if isinstance(v, (list, tuple)):
+        out = [ptype(rng, x) for x in v]
+        return tuple(out) if (isinstance(v, tuple) or rng.random() < 0.25) else out
+    kinds = ["float", "np.float64"]
+    if float(v) == int(v) and abs(v) < 2 ** 31:
+        kinds += ["int", "np.int64", "np.int32"]
+    if float(np.float32(v)) == float(v):
+        kinds.append("np.float32")
+    k = rng.choice(kinds)
+    return {"float": float, "np.float64": np.float64, "int": lambda x: int(x), "np.int64": lambda x: np.int64(int(x)),
+            "np.int32": lambda x: np.int32(int(x)), "np.float32": np.float32}[k](v)
+
+
 def nanlist(vals):
     return [NAN if v is None else v for v in vals]
 
